@@ -521,11 +521,25 @@ impl Project {
                 Decl::Impl(i) => {
                     let it = &self.items[*i];
                     if let ItemKind::Type { impl_funcs, .. } = &it.kind {
-                        let _ = writeln!(s, "impl {} {{", it.name);
-                        for f in impl_funcs {
-                            s.push_str(&self.func_str(f, &mut st, "    "));
+                        // Sometimes as two blocks: a type may have more than one impl block.
+                        let split = if impl_funcs.len() >= 2
+                            && crate::rng::mix(self.style, *i as u64) % 4 == 0
+                        {
+                            1 + (crate::rng::mix(self.style, 77 + *i as u64) as usize)
+                                % (impl_funcs.len() - 1)
+                        } else {
+                            impl_funcs.len()
+                        };
+                        for part in [&impl_funcs[..split], &impl_funcs[split..]] {
+                            if part.is_empty() {
+                                continue;
+                            }
+                            let _ = writeln!(s, "impl {} {{", it.name);
+                            for f in part {
+                                s.push_str(&self.func_str(f, &mut st, "    "));
+                            }
+                            s.push_str("}\n");
                         }
-                        s.push_str("}\n");
                     }
                 }
                 Decl::ExternValue(k) => {
